@@ -20,6 +20,9 @@ def gen_claim(rng, ncas=None, lat=None, one_per_stack=True):
     mode = rng.choice(['equal', 'equal', 'adjacent', 'distinct', 'mixed'])
     rngset = rng.choice([IMMEDIATE, VETO, VETO])
     base = rng.choice(rngset[:-6] if len(rngset) > 8 else rngset)
+    if rng.random() < 0.1:
+        base = 0                          # address 0 is an address like any other
+    fd_all = rng.random() < 0.25          # the same claim procedure runs on the FD data link layer
     stacks = []
     script = []
     names = set()
@@ -40,7 +43,8 @@ def gen_claim(rng, ncas=None, lat=None, one_per_stack=True):
         else:
             pref = rng.choice([base, base, base + 1, rng.choice(IMMEDIATE), rng.choice(VETO)])
         cid = 10 * i + 1
-        sd = dict(dll='j1939-21', max_cmdt=1, subs=[], cas=[dict(name=nm, addr=pref, bypass=False, subs=[cid], req=[cid + 1])])
+        sd = dict(dll='j1939-22' if fd_all else 'j1939-21', max_cmdt=1, subs=[],
+                  cas=[dict(name=nm, addr=pref, bypass=False, subs=[cid], req=[cid + 1])])
         stacks.append(sd)
         script.append(dict(t=rng.choice(STARTS), s=i, op='ca_start', ca=0, delay=rng.choice(DELAYS)))
     script.sort(key=lambda e: e['t'])
